@@ -11,6 +11,8 @@
 // off-text with only F<file>:<line>[:<col>] tokens of located nodes inserted (every located node shows, nothing else),
 // from every fresh printer, and with it off no such token occurs.
 #include <algorithm>
+#include <cstring>
+#include <new>
 #include <memory>
 #include <sstream>
 
@@ -321,7 +323,7 @@ namespace {
          case Break: { step(); auto* s = reg(lex.make_break()); locate(s, path); return *s; }
          case Continue: { step(); auto* s = reg(lex.make_continue()); locate(s, path); return *s; }
          case Goto: { auto& l = lex.get_label(id(path % 2 ? u8"retry" : u8"done")); step(); auto* s = reg(lex.make_goto(l)); locate(s, path); return *s; }
-         case DeclStmt: { auto& nm = id(u8"v0"); step(); auto* v = reg(G.make_subregion()->declare_var(nm, type_shape(path % 5))); v->init = &operand(path % 2); return *v; }
+         case DeclStmt: { auto& nm = id(path % 2 ? u8"v0" : u8"local-08"); step(); auto* v = reg(G.make_subregion()->declare_var(nm, type_shape(path % 5))); locate(v, path); v->init = &operand(path % 2); return *v; }
          case Block1: case Block2: case Try1: case Try2: {
             step();
             auto* b = reg(lex.make_block(G));
@@ -465,11 +467,11 @@ namespace {
             auto* v = reg(G.declare_var(nm, lex.int_type()));
             locate(v, 1);
             v->init = &e;
-            declaration(0, 0, 1, u8"s", 2);
+            declaration(0, 0, 1, u8"sentinel", 2);
             break;
          }
          case F_STMT: { auto& s = statement(p.a, 1); function_with_body(u8"f", s, 0); break; }
-         case F_DECL: declaration(p.a, p.b, p.c, u8"r", 1); declaration(0, 0, 1, u8"s", 2); break;
+         case F_DECL: declaration(p.a, p.b, p.c, p.c == 2 ? u8"a-name-of-24-characters!" : u8"r", 1); declaration(0, 0, 1, u8"sentinel", 2); break;
          case F_UDT: udt(p.a, p.b, p.c, 1); declaration(0, 0, 0, u8"s", 2); break;
          case F_MULTI: if (env.reverse) { /* declaration order is program structure: never reversed */ } small_decl(p.a, 1); small_decl(p.b, 2); small_decl(p.c, 3); break;
          }
@@ -554,7 +556,15 @@ namespace {
          // four printers on four streams, all alive at the same time (a printer must not depend on being the only one)
          {
             std::ostringstream s1, s2, s3, s4;
-            ipr::Printer p1{ lex, s1 }, p2{ lex, s2 }, p3{ lex, s3 }, p4{ lex, s4 };
+            // the first two printers are built in all-zero storage, the last two in storage that was used before (all ones)
+            alignas(ipr::Printer) unsigned char store[4][sizeof(ipr::Printer)];
+            std::memset(store[0], 0x00, sizeof store[0]); std::memset(store[1], 0x00, sizeof store[1]);
+            std::memset(store[2], 0xFF, sizeof store[2]); std::memset(store[3], 0xFF, sizeof store[3]);
+            ipr::Printer& p1 = *new (store[0]) ipr::Printer{ lex, s1 };
+            ipr::Printer& p2 = *new (store[1]) ipr::Printer{ lex, s2 };
+            ipr::Printer& p3 = *new (store[2]) ipr::Printer{ lex, s3 };
+            ipr::Printer& p4 = *new (store[3]) ipr::Printer{ lex, s4 };
+            struct Destroy { ipr::Printer* p[4]; ~Destroy() { for (auto q : p) q->~Printer(); } } destroy{ { &p1, &p2, &p3, &p4 } };
             p2.print_locations = true;
             p4.print_locations = true;
             auto print = [&](ipr::Printer& pp, std::string& oc) {
